@@ -299,7 +299,7 @@ func GenTable(t *rapid.T, name Ident, o Opts) Table {
 		var cons []string
 		if (pk == 1 || (pk == 2 && tpkSingle)) && i == pkcol && rapid.Bool().Draw(t, "intlike") {
 			// exercise the rowid-alias rule: type names near INTEGER
-			c.Type = rapid.SampledFrom([]string{"INTEGER", "INTEGER", "integer", "Integer", "INT", "INTEGER(10)", "INTEGER(8,2)", "BIGINT", "\"INTEGER\"", "[INTEGER]", "`integer`", "INTEGERS", "UNSIGNED INTEGER"}).Draw(t, "inttype")
+			c.Type = rapid.SampledFrom([]string{"INTEGER", "INTEGER", "integer", "Integer", "INT", "INTEGER(10)", "INTEGER(8,2)", "integer(3)", "BIGINT", "\"INTEGER\"", "[INTEGER]", "`integer`", "INTEGERS", "UNSIGNED INTEGER"}).Draw(t, "inttype")
 		}
 		if pk == 1 && i == pkcol {
 			s := "PRIMARY KEY" + rapid.SampledFrom([]string{"", "", " ASC", " DESC"}).Draw(t, "pkdir")
@@ -389,7 +389,12 @@ func GenTable(t *rapid.T, name Ident, o Opts) Table {
 	if pk == 2 {
 		pkcols := ""
 		if tpkSingle {
-			pkcols = ids[pkcol].SQL + rapid.SampledFrom([]string{"", "", " ASC", " DESC"}).Draw(t, "tpkdir")
+			pkcols = ids[pkcol].SQL
+			if rapid.IntRange(0, 2).Draw(t, "tpkcoll") == 0 {
+				// (on a column that aliases the rowid SQLite ignores this COLLATE)
+				pkcols += " COLLATE " + rapid.SampledFrom(collations).Draw(t, "tpkcolln")
+			}
+			pkcols += rapid.SampledFrom([]string{"", "", " ASC", " DESC"}).Draw(t, "tpkdir")
 		} else {
 			pkcols = GenIndexedCols(t, ids, 3, "tpk")
 		}
